@@ -180,6 +180,13 @@ func c15(r *core.Run) {
 		r.Case(c["shape"].(string))
 		r.Sample(c)
 	}
+	if len(segs) > 0 {
+		r.BindingSelfTest("names", "NamesTrace", "", [][]byte{segs[0].Lines[0], segs[len(segs)-1].Lines[0]}, []core.Corruption{
+			{"stored under another name than EventType reports", core.ReplaceFirst(`"e":"shape"`, `"stored":"`, `"stored":"x`)},
+			{"typed replay delivered nothing", core.ReplaceFirst(`"e":"shape"`, `"replayed":1`, `"replayed":0`)},
+			{"a concurrent publisher's record carries another event's data", core.ReplaceFirst(`"e":"concurrent"`, `"foreign":0`, `"foreign":1`)},
+		})
+	}
 	r.ValidateSegments("c15", "NamesTrace", "", segs, func(rej core.SegReject) *core.Segment {
 		c := rej.Seg.Meta.(map[string]any)
 		art, _ := json.MarshalIndent(map[string]any{"shape": c, "trace": core.SegTrace(rej.Seg), "spec": "NamesTrace"}, "", " ")
